@@ -874,8 +874,7 @@ def e2e_case_result(case):
         return trivial, ("C10:tools:axis-output-dtype", f"[data type {case['dtype']}, axis={case.get('axis')}, keepdims={case.get('keepdims')}] " + v[1])
     if v and case.get("reuse"):
         r_ = case["reuse"]
-        sig = v[0] if v[0].endswith("stale-parameters") else v[0] + ":reuse"
-        return trivial, (sig, f"[re-used estimator: fit with {r_['P1']}, {r_['how']} to the bounds/norm below, then {r_['second']}(D)] " + v[1])
+        return trivial, (v[0] + ":reuse", f"[re-used estimator: fit with {r_['P1']}, {r_['how']} to the bounds/norm below, then {r_['second']}(D)] " + v[1])
     if v and case.get("partial"):
         return trivial, (v[0] + ":partial", f"[only {case['partial']} declared, the other domain parameter derived from the data] " + v[1])
     if v and case.get("declared"):
@@ -885,6 +884,10 @@ def e2e_case_result(case):
              (f"[data type {case['dtype']}] " if case.get("dtype") else "") +
              (f"[sequence {case['seq']}: first batch A in-domain, second batch D] " if case.get("seq") else "") + v[1])
     return trivial, v
+
+
+import collections
+INFO = collections.Counter()
 
 
 def _e2e_case_result(case):
@@ -938,14 +941,9 @@ def _e2e_case_result(case):
                 k3 = "ok"
             except Exception as e:  # noqa
                 k3, o3 = "exc", type(e).__name__ + ": " + str(e)[:160]
-            if k3 != "ok" or not _same(o1, o3):
-                a = np.concatenate([np.asarray(x, dtype=float).ravel() for x in o1])[:4].tolist()
-                b3 = o3 if k3 != "ok" else np.concatenate([np.asarray(x, dtype=float).ravel() for x in o3])[:4].tolist()
-                return False, (f"C10:{name}:stale-parameters",
-                               f"{name} fitted with {case['reuse']['P1']}, then {case['reuse']['how']} to "
-                               f"{ {k: (np.asarray(v).tolist() if not isinstance(v, tuple) else [np.asarray(x).tolist() for x in v]) for k, v in model_clip_params(name, case).items()} }"
-                               f", then fit(D) (seed {case['seed']}) differs from a FRESH estimator constructed with these parameters: "
-                               f"{a} vs {b3}")
+            # informational only: "re-used == fresh" is more than C10 states (C10 is f(D) == f(clip(D)) with the CURRENT
+            # parameters, both sides built through the identical sequence); counted, never a violation
+            INFO["reuse_vs_fresh:" + name + (":same" if k3 == "ok" and _same(o1, o3) else ":differs")] += 1
     trivial = _eqv(D, Dc) if D.shape == Dc.shape else False
     if case["family"] == "model" and name.startswith("LinearRegression") and trivial:
         trivial = _eqv(y, yc)
@@ -1307,7 +1305,8 @@ FIXED_E2E += [
 
 
 FIXED_E2E += [
-    # a re-used estimator must clip to (and calibrate with) the bounds it has NOW, not the ones of its first fit
+    # a re-used estimator must clip to (and calibrate with) the bounds it has NOW, not the ones of its first fit: the equality
+    # checked is f(D) == f(clip_P2(D)), both sides built through the identical sequence fit(A, P1); set P2; fit(.)
     {"family": "model", "name": "StandardScaler", "eps": 1.0, "seed": 5, "lower": 0.2, "upper": 0.6, "bkind": "scalar+reuse",
      "reuse": {"how": "set_params", "second": "fit", "P1": {"lower": 0.0, "upper": 1.0}, "array_form": False},
      "A": _seq_rows(20, 2, [0.0, 0.0], [1.0, 1.0], []), "D": _seq_rows(24, 2, [0.0, 0.0], [1.0, 1.0], [(0, [5.0, -3.0])]), "probe": [[0.3, 0.3]]},
@@ -1357,6 +1356,9 @@ def check_e2e(ctx):
         ctx.count("e2e:" + case["name"] + ("+dtype" if case.get("dtype") else "") + ("+seq" if case.get("seq") else "") + ("+reuse" if case.get("reuse") else ""))
         if not trivial and v is None:
             ctx.trace_ok()
+    for k, n_ in INFO.items():
+        ctx.count(k, n_)
+    INFO.clear()
     ctx.sample({"e2e_case": {k: (v if k not in ("D", "y", "probe") else "...") for k, v in cases[10].items()}})
 
 
